@@ -16,3 +16,110 @@ pub open spec fn ido_upper_hint(i: Interval, c: int, h: Bitvector) -> bool {
     &&& ((i.stride > 0 && i.w() <= 64) ==> on_stride(i.stride, h.s() - i.start.s()) && c - h.s() < i.stride)
 }
 pub open spec fn ido_max(a: u64, b: u64) -> u64 { if a <= b { b } else { a } }
+
+/// candidates for the widening hints of a product: the non-overflowing products of one hint of each operand
+pub open spec fn ido_mul_cand1(a: Option<Bitvector>, b: Option<Bitvector>, h: Bitvector) -> bool {
+    a is Some && b is Some && ia_mul_fits(a->Some_0, b->Some_0) && h == bv_mul(a->Some_0, b->Some_0)
+}
+pub open spec fn ido_mul_cand(a: IntervalDomain, b: IntervalDomain, h: Bitvector) -> bool {
+    &&& h.wf() && h.w@ == a.w()
+    &&& (ido_mul_cand1(a.widening_lower_bound, b.widening_lower_bound, h) || ido_mul_cand1(a.widening_lower_bound, b.widening_upper_bound, h)
+        || ido_mul_cand1(a.widening_upper_bound, b.widening_lower_bound, h) || ido_mul_cand1(a.widening_upper_bound, b.widening_upper_bound, h))
+}
+
+/// equal width and equal signed value: the same bitvector
+pub proof fn lemma_ido_eq_iff_s(a: Bitvector, b: Bitvector)
+    requires a.wf(), b.wf(), a.w@ == b.w@
+    ensures (a == b) == (a.s() == b.s()), (a.u@ == b.u@) == (a.s() == b.s()),
+{
+    lemma_sval(a.w@, a.u@); lemma_sval(b.w@, b.u@);
+}
+
+/// the only member of a singleton interval is its bound
+pub proof fn lemma_ido_singleton(i: Interval)
+    requires i.inv(), i.start == i.end
+    ensures i.gamma(i.start), forall|v: Bitvector| #[trigger] i.gamma(v) ==> v == i.start,
+{
+    assert forall|v: Bitvector| #[trigger] i.gamma(v) implies v == i.start by { lemma_ido_eq_iff_s(v, i.start); }
+}
+
+/// INT_LEFT by a constant amount below the width is the wrapped product with 2^amount; results are well-formed
+pub proof fn lemma_ido_shl(x: Bitvector, y: Bitvector)
+    requires x.wf(), y.wf(),
+    ensures (pcode_bin(BinOpType::IntLeft, x, y)->Some_0).wf(), (pcode_bin(BinOpType::IntLeft, x, y)->Some_0).w@ == x.w@,
+        y.u@ < x.w@ ==> p2(y.u@) < p2(x.w@) && trunc(x.w@, (1 * p2(y.u@)) as int) == p2(y.u@)
+            && pcode_bin(BinOpType::IntLeft, x, y)->Some_0 == bv_mul(x, bv(x.w@, p2(y.u@))),
+{
+    let w = x.w@;
+    lemma_p2(w);
+    if y.u@ < w {
+        lemma_trunc_range(w, (x.u@ * p2(y.u@)) as int);
+        vstd::arithmetic::power2::lemma_pow2_strictly_increases(y.u@, w);
+        lemma_trunc_id(w, p2(y.u@) as int);
+    }
+}
+
+/// the value sign extension produces: bits of the signed reading in the wider type
+pub open spec fn ido_sext(x: Bitvector, t: nat) -> Bitvector { bv(t, trunc(t, x.s())) }
+pub open spec fn ido_sext_opt(h: Option<Bitvector>, t: nat) -> Option<Bitvector> {
+    match h { Some(b) => Some(ido_sext(b, t)), None => None }
+}
+
+/// sign extension keeps the signed value
+pub proof fn lemma_ido_sext(x: Bitvector, t: nat)
+    requires x.wf(), x.w@ <= t <= MAXW(),
+    ensures ido_sext(x, t).wf(), ido_sext(x, t).w@ == t, ido_sext(x, t).s() == x.s(),
+        smin(t) <= smin(x.w@), smax(x.w@) <= smax(t),
+{
+    lemma_sval(x.w@, x.u@);
+    lemma_p2_mono((x.w@ - 1) as nat, (t - 1) as nat);
+    lemma_trunc_sval(t, x.s());
+}
+
+/// the sign-extended interval: well-formed, same signed bounds, contains the extension of every member
+pub proof fn lemma_ido_sext_interval(i: Interval, t: nat)
+    requires i.inv(), i.w() <= t <= MAXW(),
+    ensures ({
+        let r = Interval { start: ido_sext(i.start, t), end: ido_sext(i.end, t), stride: i.stride };
+        &&& r.inv() && r.w() == t
+        &&& forall|x: Bitvector| i.gamma(x) ==> #[trigger] r.gamma(bv(t, trunc(t, x.s())))
+    }),
+{
+    let r = Interval { start: ido_sext(i.start, t), end: ido_sext(i.end, t), stride: i.stride };
+    lemma_ido_sext(i.start, t); lemma_ido_sext(i.end, t);
+    assert forall|x: Bitvector| i.gamma(x) implies #[trigger] r.gamma(bv(t, trunc(t, x.s()))) by { lemma_ido_sext(x, t); }
+}
+
+/// the hint zero_extend keeps: only when hint, start and end have the same sign (then zero extension is monotone on them)
+pub open spec fn ido_zext_hint(h: Option<Bitvector>, near: Bitvector, i: Interval, t: nat) -> Option<Bitvector> {
+    if h is Some && h->Some_0.sign() == near.sign() && i.start.sign() == i.end.sign() { Some(bv(t, h->Some_0.u@)) } else { None }
+}
+
+/// signed value fits into t bits
+pub open spec fn ido_fits(v: Bitvector, t: nat) -> bool { smin(t) <= v.s() <= smax(t) }
+
+/// fits_into_size: the bound test is the member test
+pub proof fn lemma_ido_fits(i: Interval, t: nat)
+    requires i.inv(), 1 <= t <= MAXW(),
+    ensures
+        i.gamma(i.start), i.gamma(i.end),
+        t >= i.w() ==> forall|v: Bitvector| #[trigger] i.gamma(v) ==> ido_fits(v, t),
+        (ido_fits(i.start, t) && ido_fits(i.end, t)) ==> forall|v: Bitvector| #[trigger] i.gamma(v) ==> ido_fits(v, t),
+        // the bounds the code compares with: signed_min/max_value of t bits, sign-extended to the interval's width
+        t < i.w() ==> ido_sext(bv(t, p2((t - 1) as nat)), i.w()).wf() && ido_sext(bv(t, p2((t - 1) as nat)), i.w()).s() == smin(t)
+            && ido_sext(bv(t, (p2((t - 1) as nat) - 1) as nat), i.w()).wf() && ido_sext(bv(t, (p2((t - 1) as nat) - 1) as nat), i.w()).s() == smax(t),
+{
+    let w = i.w();
+    lemma_minmax(t);
+    if t >= w {
+        lemma_p2_mono((w - 1) as nat, (t - 1) as nat);
+        assert forall|v: Bitvector| #[trigger] i.gamma(v) implies ido_fits(v, t) by { lemma_sval(w, v.u@); }
+    } else {
+        lemma_p2(t); lemma_p2((t - 1) as nat);
+        lemma_ido_sext(bv(t, p2((t - 1) as nat)), w);
+        lemma_ido_sext(bv(t, (p2((t - 1) as nat) - 1) as nat), w);
+    }
+    if i.stride != 0 {
+        assert(0int % (i.stride as int) == 0) by { vstd::arithmetic::div_mod::lemma_small_mod(0, i.stride as nat); }
+    }
+}
